@@ -1,3 +1,5 @@
+//go:build !verifsched
+
 package props
 
 import (
@@ -31,8 +33,11 @@ func init() {
 			}
 			return u
 		},
-		Run:    c08Run,
-		Bound:  func(tier string) map[string]any { me, pairs := c08Bound(tier); return map[string]any{"seed_max_lists": 2, "seed_max_entries": me, "field_alphabet": "0,1,15,16,17,27,28,29,31,32,44,47,48,49,75,76,77,exact+-1,remaining+-1,2^31-1,2^31,2^32-1", "pairs": pairs} },
+		Run: c08Run,
+		Bound: func(tier string) map[string]any {
+			me, pairs := c08Bound(tier)
+			return map[string]any{"seed_max_lists": 2, "seed_max_entries": me, "field_alphabet": "0,1,15,16,17,27,28,29,31,32,44,47,48,49,75,76,77,exact+-1,remaining+-1,2^31-1,2^31,2^32-1", "pairs": pairs}
+		},
 		Budget: dur(3*time.Minute, 25*time.Minute),
 	})
 }
